@@ -57,7 +57,7 @@ class AddrHarness(Harness):
         self.v = {n: self.viol(n) for n in ["address", "configuration"]}
         self.c = {n: self.cover(n) for n in ["address_set", "config_set", "ep1_ack_while_pending", "lost_ack_no_change",
                                              "reset_clears", "responds_at_new_address"]}
-        self.a = {n: self.assume(n) for n in ["legal", "no_hsk", "wellformed_sets"]}
+        self.a = {n: self.assume(n) for n in ["legal", "no_hsk", "wellformed_sets", "setup_after_reset"]}
 
     def elaborate(self, platform):
         m = Module()
@@ -116,6 +116,16 @@ class AddrHarness(Harness):
                 with m.Else():
                     m.d.comb += n_cfg.eq(pend_val)
             m.d.usb += [g_addr.eq(n_addr), g_cfg.eq(n_cfg)]
+        # after a bus reset the host addresses the control endpoint with a SETUP first: no IN / OUT transaction on endpoint 0
+        # of the (now default-address) device before the next valid SETUP for it
+        need_setup = Signal()
+        with m.If(judge):
+            with m.If(cur_vbus_lost):
+                m.d.usb += need_setup.eq(1)
+            with m.Elif(valid_setup):
+                m.d.usb += need_setup.eq(0)
+        m.d.comb += self.a["setup_after_reset"].eq(~(need_setup & ~h.done & to_us & ep0 &
+                                                     ((h.cur_kind == KIND_IN) | (h.cur_kind == KIND_OUT))))
         itf = self.ep0.interface
         m.d.comb += [
             self.v["address"].eq(judge & (itf.active_address != n_addr)),
